@@ -57,9 +57,15 @@ package creds
 // C10: the question put to the credential helpers names exactly the scheme
 // and host (with port) of the URL the credentials are wanted for, and the
 // wrapper remembers that URL.
+// C17: whether a carriage return is refused is decided per URL
+// (credential.<url>.protectProtocol) and belongs to the wrapper built for that
+// URL: building a wrapper changes nothing that wrappers handed out before (or
+// being used by another transfer) rely on - it only allocates - and the command
+// helper inside it carries the setting of this URL.
 //@ func (*CredentialHelperContext).GetCredentialHelper
 //@   props C10 C17
-//@   ensures @C17 helper == nil ==> ctxt.commandCredHelper.protectProtocol == urlbool("protectProtocol")
+//@   modifies fresh, ghost urlbool
+//@   at call creds.NewCredentialHelpers:1 assert @C17 len(arg0__) >= 1 && dyntype(arg0__[len(arg0__) - 1], "*github.com/git-lfs/git-lfs/v3/creds.commandCredentialHelper") && ptr_as(arg0__[len(arg0__) - 1], "github.com/git-lfs/git-lfs/v3/creds.commandCredentialHelper").protectProtocol == urlbool("protectProtocol")
 //@   requires @inv ctxt != nil && u != nil && ctxt.urlConfig != nil && ctxt.commandCredHelper != nil
 //@   ensures result.Url == u && has(result.Input, "host") && len(result.Input["host"]) == 1 && result.Input["host"][0] == old(u.Host)
 //@   ensures has(result.Input, "protocol") && len(result.Input["protocol"]) == 1 && result.Input["protocol"][0] == old(u.Scheme)
